@@ -27,6 +27,10 @@ int main(int argc, char **argv) {
     else if (ctx.engine == "pool") run_pool_case(ctx, k, r, d);
     else if (ctx.engine == "chain") run_chain_case(ctx, k, r, d);
     else if (ctx.engine == "bwd") run_bwd_case(ctx, k, r, d);
+    else if (ctx.engine == "td") run_td_case(ctx, k, r, d);
+    else if (ctx.engine == "bu") run_bu_case(ctx, k, r, d);
+    else if (ctx.engine == "exact") run_exact_case(ctx, k, r, d);
+    else if (ctx.engine == "lift") run_lift_case(ctx, k, r, d);
     else {
       fprintf(stderr, "unknown engine\n");
       return 2;
